@@ -205,6 +205,25 @@ def r2_pairing(ctx, hugr, file) -> None:
         all(p.kind == "raise" and u(p.value).startswith("KeyError") for p in ps if p.kind != "return")
     ctx.check(ok, "C04.R2", "Hugr.__getitem__ rejects free slots", file, gi.lineno,
               "looking up a deleted node must raise KeyError", gi)
+    # Mapping mix-in methods answer through __getitem__ / __iter__ / __len__; an override must look at the slot too
+    hugr_cls = ctx.program.cls(HQ)
+    for name in ("__contains__", "get", "keys", "values", "items", "__eq__"):
+        if name not in hugr_cls.methods:
+            continue
+        m_ = hugr_cls.methods[name]
+        qs = ctx.paths(f"{HQ}.{name}")
+        good = bool(qs)
+        for q in qs:
+            if q.kind != "return" or q.value_text() in ("False", "None", "NotImplemented"):
+                continue
+            slot = q.has_test("self._nodes[E_i] is not None", True) is not None
+            via_lookup = any(isinstance(e_, ast.AST) and ("self[" in u(e_) or "self.__getitem__(" in u(e_) or "super()." in u(e_)) for e_ in list(q.effects) + [q.value]) \
+                and not q.has_test("except_(KeyError)", True)
+            via_iter = any(tok in u(q.value) for tok in ("for c0 in self", "iter(self)", "self.nodes()", "super()."))
+            good = good and (slot or via_lookup or via_iter)
+        ctx.check(good, "C04.R2", f"Hugr.{name}: agrees with lookup on freed slots", file, m_.lineno,
+                  f"Hugr.{name} overrides the Mapping mix-in without consulting the slot (`self._nodes[i] is not None`), __getitem__ or __iter__: "
+                  "an index freed by delete_node is still a position of the table, so the answer contradicts `hugr[node]` (KeyError), iteration and len", m_)
 
 
 def _succ_towards(g, t, r):
@@ -421,11 +440,14 @@ ROWS = [
 ]
 
 
-def r6_r7_tables(ctx, hugr, file) -> None:
+def r6_r7_tables(ctx, hugr, file, only=None) -> None:
+    """only: restrict to these query rows (for properties that rely on a few queries) and skip the add_link / direction rules"""
     from ..nf import NF, Env, Opaque, show, sym
     nf = NF(ctx.program)
     nf._self_exact = True
     for name, expr, why in ROWS:
+        if only is not None and name not in only:
+            continue
         k, m = hugr.find_method(name)
         if m is None:
             ctx.broken(f"anchor vanished: Hugr.{name}")
@@ -438,6 +460,8 @@ def r6_r7_tables(ctx, hugr, file) -> None:
                 continue        # already reported as an impure query
             ctx.broken(f"Hugr.{name} not normalisable: {e}")
         ctx.check(got == want, "C04.R7", f"Hugr.{name}", file, m.lineno, f"Hugr.{name} must be `{expr}` ({why})", m, expected=show(want), found=show(got), detail=show(got)[:160])
+    if only is not None:
+        return
     al = hugr.methods.get("add_link")
     if al is None:
         ctx.broken("anchor vanished: Hugr.add_link")
